@@ -213,7 +213,9 @@ class PyModel:
     def func(self, qual: str) -> FuncInfo:
         if qual not in self.functions:
             raise core.AnalysisError("engine-P", qual, "function not found in repository model")
-        return self.functions[qual]
+        fi = self.functions[qual]
+        _NODE2FI[id(fi.node)] = (self, fi)
+        return fi
 
     def func_opt(self, qual: str) -> Optional[FuncInfo]:
         return self.functions.get(qual)
@@ -872,13 +874,27 @@ def _pm(p, n, b) -> bool:
     return True
 
 
+_NODE2FI: Dict[int, tuple] = {}
+
+
 def find_match(pattern: str, root, binds=None):
-    """first sub-node of root matching pattern -> (node, binds) or (None, None)"""
+    """first sub-node of root matching pattern -> (node, binds) or (None, None). When `root` is the definition of a repository function
+    and the source as written does not match, the function's normal form (vlib/pynorm.py) is tried as well."""
     for n in ast.walk(root):
         if isinstance(n, ast.expr):
             r = pmatch(pattern, n, binds)
             if r is not None:
                 return n, r
+    hit = _NODE2FI.get(id(root))
+    if hit is not None and hit[1].node is root:
+        try:
+            from .pynorm import normalizer, norm_expr, canon_globals
+            pm_, fi_ = hit
+            nf = normalizer(pm_).function(fi_, frozenset(pattern_idents(pattern)))
+            pat = canon_globals(pm_, norm_expr(ast.parse(pattern, mode="eval").body))
+            return find_match_ast(pat, nf, binds)
+        except RecursionError:
+            return None, None
     return None, None
 
 
